@@ -1,4 +1,5 @@
 import IcyVerif.Model.TermWrap
+import IcyVerif.Model.TermOther
 import IcyVerif.Drv.Util
 namespace IcyVerif.Drv.Term
 open IcyVerif.Term IcyVerif.Drv
@@ -69,7 +70,48 @@ def emuOf : String → Option Emu
   | "avatar" => some .avatar | "pcboard" => some .pcboard | "ctrla" => some .ctrla | "renegade" => some .renegade
   | _ => none
 
+structure OAcc where
+  st : OSt
+  h : UInt64 := 14695981039346656037
+  n : Nat := 0
+  checkpoints : List UInt64 := []
+  panic : Option String := none
+
+def runOItems (e : Emu2) (items : List String) (acc : OAcc) : OAcc :=
+  items.foldl (fun acc it =>
+    if acc.panic.isSome then acc else
+    match it.splitOn ":" with
+    | cp :: _ =>
+      match cp.toNat? with
+      | some cp =>
+        match ostep e acc.st (Char.ofNat cp) with
+        | .ok (st', out) =>
+          let g : St := { s := st'.s, c := st'.c, p := {} }
+          let h := fnvStep acc.h (digestHash g (outStr out)).toNat
+          let n := acc.n + 1
+          { acc with st := st', h := h, n := n, checkpoints := if n % 32 == 0 then h :: acc.checkpoints else acc.checkpoints }
+        | .error e => { acc with panic := some (reprStr e) }
+      | none => { acc with panic := some "bad-item" }
+    | _ => { acc with panic := some "bad-item" }) acc
+
+def emu2Of : String → Option Emu2
+  | "ascii" => some .ascii | "atascii" => some .atascii | "petscii" => some .petscii
+  | "viewdata" => some .viewdata | "mode7" => some .mode7
+  | _ => none
+
 def handle : List String → String
+  | ["runo", emu, w, h, items] =>
+    match emu2Of emu, w.toInt?, h.toInt? with
+    | some e, some w, some h =>
+      let (w, h) := if e = .viewdata ∨ e = .mode7 then ((40 : Int), (24 : Int)) else (w, h)
+      let acc := runOItems e (if items == "-" then [] else items.splitOn ",") { st := initO w h }
+      match acc.panic with
+      | some p => s!"panic after {acc.n}: {p}"
+      | none =>
+        let g : St := { s := acc.st.s, c := acc.st.c, p := {} }
+        let base := s!"{acc.n} {acc.h} [{intsToString (digest g)}]"
+        if acc.checkpoints.isEmpty then base else base ++ " " ++ " ".intercalate (acc.checkpoints.reverse.map toString)
+    | _, _, _ => "bad-op"
   | ["runw", emu, w, h, items] =>
     match emuOf emu, w.toInt?, h.toInt? with
     | some e, some w, some h =>
